@@ -103,6 +103,12 @@ STD_CALLS = [
     (r'^isfinite\|bool \((const )?(double|float)\)', 'NV_FINITE({0})'),
     (r'^signbit\|bool \((const )?(double|float)\)', '__CPROVER_signd({0})'),
     (r'^memcpy\|void \*\(void \*', 'memcpy((void*)({0}), (const void*)({1}), {2})'),
+    (r'^operator=\|[^|]*\|std::atomic<(bool|int|long|unsigned long|unsigned int|double)>\|#2', '(*{&0} = {1})'),
+]
+# sequential view of std::atomic<scalar>: a load is the value, a store is an assignment
+STD_MEMBERS = [
+    (r'^(operator (bool|int|long|unsigned long|unsigned int|double)|load)\|std::atomic<(bool|int|long|unsigned long|unsigned int|double)>', '(*{self})'),
+    (r'^store\|std::atomic<(bool|int|long|unsigned long|unsigned int|double)>', '(*{self} = {0})'),
 ]
 
 
@@ -154,6 +160,10 @@ class Printer:
                 return 'struct nv_opaque' + ptr
         if q in SCALARS:
             return SCALARS[q] + ptr
+        ma = re.match(r'^std::atomic<(.+)>$', q)
+        if ma and strip_cv(ma.group(1)) in SCALARS:
+            self.note('std::atomic<T> printed as T (sequential view of the atomic object)')
+            return SCALARS[strip_cv(ma.group(1))] + ptr
         raise Unsupported(f'type {q!r} not modelled (target {self.cname})')
 
     def ctype(self, t):
@@ -617,6 +627,8 @@ class Printer:
         lit = string_literal_of(inner[1]) if len(inner) > 1 else None
         key = f'{name}|{objt}' + (f'|"{lit}"' if lit is not None else '') + f'|#{len(inner) - 1}' + self.template_text(me, name)
         m = self.lookup(self.members, key)
+        if m is None and not self.is_opaque(obj.get('type')):
+            m = self.lookup(STD_MEMBERS, key)
         if m is None:
             if self.is_opaque(obj.get('type')) or self.any_opaque_operand(inner[1:]):
                 return self.havoc_value(n, f'member call {name} on erased numerics')
